@@ -51,6 +51,9 @@ type FieldJ struct {
 	Arr     int    `json:"arr"`
 	MavLen  int    `json:"mavlen"`
 	Ext     bool   `json:"ext"`
+	// the field's Go type is a defined type (type Callsign string, type Celsius float32) without a mavenum tag: whether
+	// a message struct may have such fields is the library's choice - if it accepts one, it has to encode it
+	Defined bool `json:"defined"`
 }
 
 type DefJ struct {
@@ -78,6 +81,7 @@ func defOf(m message.Message) DefJ {
 			gt = gt.Elem()
 		}
 		fj.GoKind = gt.Kind().String()
+		fj.Defined = gt.Name() != gt.Kind().String() && fj.MavEnum == ""
 		if l := f.Tag.Get("mavlen"); l != "" {
 			n, err := strconv.Atoi(l)
 			if err != nil {
